@@ -39,8 +39,10 @@ def exact_ws(latname, mp, shift, search=4, near=0.0):
          'min'  : sorted list of R (tuples) that minimise |R+shift| *exactly*
          'd0'   : the minimal distance (float)
          'near' : list of (R, d - d0) for the non-minimal candidates with d - d0 <= near
-         'nmax' : max |n_i| over the exact minimisers (the library searches |n_i| <= 3)
-    shift: 3 Fractions (reduced)."""
+         'nmax' : max over the exact minimisers and directions of |floor(R_i / mp_i)|, i.e. the supercell index
+                  the library's search window (cells 0..mp-1 plus supercells -3..3) needs to contain them
+    shift: 3 Fractions (reduced).  The candidates are R = r0 + mp*n with n in a window of +-search supercells
+    centred on -shift, so the true minimum is found for any distance between the centres."""
     G = gram_exact(latname)
     Gf = np.array([[float(x) for x in row] for row in G])
     mp = [int(m) for m in mp]
@@ -48,7 +50,8 @@ def exact_ws(latname, mp, shift, search=4, near=0.0):
     ns = np.array(list(itertools.product(range(-search, search + 1), repeat=3)), dtype=int)
     out = {}
     for r0 in itertools.product(*[range(m) for m in mp]):
-        R = np.array(r0, dtype=int)[None, :] + ns * np.array(mp)[None, :]
+        n0 = np.array([int(round((-sf[i] - r0[i]) / mp[i])) for i in range(3)], dtype=int)
+        R = np.array(r0, dtype=int)[None, :] + (ns + n0[None, :]) * np.array(mp)[None, :]
         v = R + sf[None, :]
         d2 = np.einsum("ni,ij,nj->n", v, Gf, v)
         d = np.sqrt(np.maximum(d2, 0.0))
@@ -67,6 +70,6 @@ def exact_ws(latname, mp, shift, search=4, near=0.0):
                 Rj = tuple(int(x) for x in R[j])
                 if Rj not in minset:
                     nr.append((Rj, float(d[j] - dmin)))
-        nmax = max(max(abs((Rj[i] - r0[i]) // mp[i]) for i in range(3)) for Rj in mins)
+        nmax = max(max(abs(Rj[i] // mp[i]) for i in range(3)) for Rj in mins + [x[0] for x in nr])
         out[r0] = {"min": mins, "d0": float(dmin), "near": nr, "nmax": int(nmax)}
     return out
